@@ -9,7 +9,7 @@ CHECK = {
                  "brute-force oracles",
     "level_text": "AMR state space: every refinement history of the real AMRGrid inside the bound (block layouts 1, 2x1x1, 3x1x1, "
                   "3x2x1 (+1x1x2, 1x2x3); all 8 children: quick <=5/4/4/3 refinements with leaves to level 3, thorough <=6 "
-                  "refinements to level 3 and <=5 to level 4 for one block, <=5/4 for two and three blocks, <=4 to level 4 for six; "
+                  "refinements to level 3 and <=5 to level 4 for one block, <=4 to level 4 for two and three blocks, <=4 to level 3 / <=3 to level 4 for six; "
                   "pairs of opposite children: 12 refinements / level 4; single chains to level 8; boxes with non-binary block "
                   "sizes) is enumerated breadth first; on every transition a fresh grid is built from the history and "
                   "enumeration (first/next key = Morton order of the model, each leaf once), geometry, volume sum, the "
